@@ -511,6 +511,101 @@ func genAccess() string {
 	}
 	sort.Strings(gs)
 	b.WriteString("def goroutineEntries : List String := " + leanStrList(gs) + "\n")
+	// ownership transfer: a value handed to the application through pushEvent must not be used by the sender afterwards
+	b.WriteString("\n/-- uses of an event value (or of what it was built from) in the statements that FOLLOW its hand-over to the application\n    (`pushEvent(v)`), per function: \"function: variable\" -/\n")
+	b.WriteString("def usesAfterHandoff : List String := " + leanStrList(usesAfterHandoff(decls, info)) + "\n")
 	b.WriteString("\nend Mav.Gen.Access\n")
 	return b.String()
+}
+
+// usesAfterHandoff: for every `x.pushEvent(v)` statement whose argument is a local variable, the later statements of the same
+// block that still mention v, or a variable v was built from (`v := &EventFrame{fr, ch}`: fr).
+func usesAfterHandoff(decls []*ast.FuncDecl, info *types.Info) []string {
+	var out []string
+	seen := map[string]bool{}
+	for _, fd := range decls {
+		fn := funcName(fd)
+		// what each local variable was built from (composite literals only)
+		builtFrom := map[types.Object][]types.Object{}
+		ast.Inspect(fd.Body, func(n ast.Node) bool {
+			as, ok := n.(*ast.AssignStmt)
+			if !ok || len(as.Lhs) != 1 || len(as.Rhs) != 1 {
+				return true
+			}
+			lhs, ok := as.Lhs[0].(*ast.Ident)
+			if !ok {
+				return true
+			}
+			obj := info.Defs[lhs]
+			if obj == nil {
+				obj = info.Uses[lhs]
+			}
+			if obj == nil {
+				return true
+			}
+			rhs := as.Rhs[0]
+			if u, ok := rhs.(*ast.UnaryExpr); ok {
+				rhs = u.X
+			}
+			if cl, ok := rhs.(*ast.CompositeLit); ok {
+				ast.Inspect(cl, func(m ast.Node) bool {
+					if id, ok := m.(*ast.Ident); ok {
+						if o, ok := info.Uses[id].(*types.Var); ok && !o.IsField() && o.Pkg() != nil && o.Parent() != o.Pkg().Scope() {
+							if _, isPtrOrIface := o.Type().Underlying().(*types.Basic); !isPtrOrIface {
+								builtFrom[obj] = append(builtFrom[obj], o)
+							}
+						}
+					}
+					return true
+				})
+			}
+			return true
+		})
+		var walkBlock func(list []ast.Stmt)
+		walkBlock = func(list []ast.Stmt) {
+			for i, st := range list {
+				if es, ok := st.(*ast.ExprStmt); ok {
+					if call, ok := es.X.(*ast.CallExpr); ok {
+						if sel, ok := call.Fun.(*ast.SelectorExpr); ok && sel.Sel.Name == "pushEvent" && len(call.Args) == 1 {
+							if id, ok := call.Args[0].(*ast.Ident); ok {
+								if v := info.Uses[id]; v != nil {
+									watch := map[types.Object]string{v: id.Name}
+									for _, o := range builtFrom[v] {
+										if _, isChan := o.Type().Underlying().(*types.Pointer); !isChan || o.Name() != "ch" {
+											watch[o] = o.Name()
+										}
+									}
+									for _, later := range list[i+1:] {
+										ast.Inspect(later, func(m ast.Node) bool {
+											if lid, ok := m.(*ast.Ident); ok {
+												if name, ok := watch[info.Uses[lid]]; ok {
+													k := fn + ": " + name
+													if !seen[k] {
+														seen[k] = true
+														out = append(out, k)
+													}
+												}
+											}
+											return true
+										})
+									}
+								}
+							}
+						}
+					}
+				}
+				// nested blocks
+				ast.Inspect(st, func(m ast.Node) bool {
+					if b, ok := m.(*ast.BlockStmt); ok {
+						walkBlock(b.List)
+						return false
+					}
+					return true
+				})
+			}
+		}
+		walkBlock(fd.Body.List)
+	}
+	sort.Strings(out)
+	return out
 }
